@@ -146,6 +146,23 @@ def _perm_project():
     return files
 
 
+def _many_sites_project():
+    """Seven files that all share a constant, a call with a small set of string values, a string
+    comparison chain and (four of them) a duplicated block: every cross-file finding then has more
+    partner locations than its message lists, so WHICH partners are named is observable."""
+    modes = ["fast", "slow", "safe"]
+    block = "    alpha = fetch_alpha(job)\n    beta = alpha.transform(job)\n    gamma = combine(alpha, beta)\n    delta = publish(gamma, job)\n"
+    files = {}
+    for i in range(7):
+        body = f"MAX_RETRY_COUNT = 5\n\n\ndef run_{i}(job, level):\n    configure_mode(\"{modes[i % 3]}\")\n"
+        if i < 4:
+            body += block
+        body += f"    if level == \"{modes[i % 3]}\" or level == \"{modes[(i + 1) % 3]}\":\n        return {i}\n    return job\n"
+        files[f"site{i}.py"] = body
+    files[".thailint.yaml"] = yaml_dump({"dry": {"enabled": True, "min_duplicate_lines": 4}})
+    return files
+
+
 def _walk_permuter(perm_dirs, perm_files):
     real = os.walk
 
@@ -194,6 +211,7 @@ def items(tier: str, seed: int):
     for block in chunks(perms, 20):
         out.append({"kind": "perm", "perms": block})
     out.append({"kind": "walk"})
+    out.append({"kind": "perm-many"})
     corpus = sorted(_pair_corpus())
     pairs = [(a, b) for a in corpus for b in corpus if a != b]
     for block in chunks(pairs, 40):
@@ -299,10 +317,49 @@ def run_item(item) -> Acc:
                     for rid in rules or ["<multiplicity>"]:
                         acc.fail({"part": "order", "via": "discovery", "rule": rid}, {"dir_perm": list(pd), "file_perm": list(pf)}, [list(t) for t in ref if t[0] == rid][:4], [list(t) for t in got if t[0] == rid][:4], "result depends on directory discovery order")
         remove(root)
+    elif k == "perm-many":
+        from src.orchestrator.core import Orchestrator  # noqa: PLC0415
+
+        files = _many_sites_project()
+        root = project(files)
+        names = [f"site{i}.py" for i in range(7)]
+        orders = [names[i:] + names[:i] for i in range(7)] + [list(reversed(names))]
+        orders += [names[:i] + [names[i + 1], names[i]] + names[i + 2 :] for i in range(6)]
+
+        def lib(order):
+            env.reset_caches()
+            return _norm(Orchestrator(project_root=root).lint_files([root / n for n in order]), root)
+
+        ref = lib(names)
+        for order in orders[1:]:
+            got = lib(order)
+            acc.case()
+            acc.edge()
+            acc.valid()
+            if ref:
+                acc.nt(("perm-many", tuple(order)))
+            if got != ref:
+                rules = sorted({t[0] for t in set(map(tuple, got)) ^ set(map(tuple, ref))})
+                for rid in rules:
+                    a = [t for t in ref if t[0] == rid]
+                    b = [t for t in got if t[0] == rid]
+                    same_places = sorted(t[:4] for t in a) == sorted(t[:4] for t in b)
+                    acc.fail({"part": "order", "via": "file-list", "rule": rid, "differs_in": "message-only" if same_places else "violations"}, {"many_sites": True, "order": order}, [list(t) for t in a][:2], [list(t) for t in b][:2], "lint_files on the same seven files in another order")
+        for cmd in ("dry", "stringly-typed"):
+            r0 = obs.cli_json([cmd, *names], root)
+            base = (r0["exit_code"], obs.norm(r0["violations"] or [], root, root))
+            for order in (orders[3], orders[7]):
+                r = obs.cli_json([cmd, *order], root)
+                g = (r["exit_code"], obs.norm(r["violations"] or [], root, root))
+                acc.case()
+                acc.edge()
+                if g != base:
+                    acc.fail({"part": "order", "via": "cli-file-list", "command": cmd}, {"many_sites": True, "order": order, "cli": cmd}, base[1][:2], g[1][:2])
+        remove(root)
     elif k == "seed":
         zoo, cfg, _idx = load.zoo_project()
         cfg = load.deep_merge(cfg, CFG)
-        root = project({**zoo, "dupa.py": A0, "dupb.py": B0, ".thailint.yaml": yaml_dump(cfg)})
+        root = project({**zoo, **{("sites/" + n): c for n, c in _many_sites_project().items() if n.endswith(".py")}, "dupa.py": A0, "dupb.py": B0, ".thailint.yaml": yaml_dump(cfg)})
         for cmd in item["commands"]:
             base = None
             for s in item["seeds"]:
@@ -362,6 +419,8 @@ def replay_case(case) -> list[dict]:
     elif "order" in case:
         a = run_item({"kind": "perm", "perms": [tuple(case["order"])]})
         return [f for f in a.failures if f["case"].get("cli") == case["cli"]]
+    elif case.get("many_sites"):
+        return [f for f in run_item({"kind": "perm-many"}).failures if f["case"].get("order") == case.get("order") and f["case"].get("cli") == case.get("cli")]
     elif case.get("pair"):
         hist = [tuple(x) for x in case.get("earlier_pairs_in_this_process", [])] + [(case["first"], case["second"])]
         return [f for f in run_item({"kind": "pairs", "pairs": hist}).failures if f["case"]["first"] == case["first"] and f["case"]["second"] == case["second"]]
